@@ -315,6 +315,13 @@ func check(sc scenario, o outcome) (clause, detail string) {
 				return "failing-run-reported", fmt.Sprintf("request %d: the run of %s failed but the request returned nil", i, tool)
 			}
 		}
+		// state shared between requests without synchronisation shows as one request reporting
+		// what belongs to another (the shim makes a failing tool print the file it was given)
+		for j := range sc.reqs {
+			if j != i && strings.Contains(o.errs[i], fmt.Sprintf("file%d", j)) {
+				return "no-data-race", fmt.Sprintf("request %d returned an error mentioning the file of request %d: %q", i, j, o.errs[i])
+			}
+		}
 		if f != generator.NoFormat && probes[tool] != 1 {
 			return "probe-at-most-once", fmt.Sprintf("tool %s probed %d times although a request needed it", tool, probes[tool])
 		}
